@@ -117,7 +117,8 @@ int cp_bdpe_enc(uint8_t *out, size_t *out_len, dig_t in, const bdpe_t pub) {
 
 	size = bn_size_bin(pub->n);
 
-	if (in > pub->t) {
+	/* The plaintext space is [0, t - 1]. */
+	if (in >= pub->t) {
 		return RLC_ERR;
 	}
 
@@ -181,6 +182,10 @@ int cp_bdpe_dec(dig_t *out, const uint8_t *in, size_t in_len,
 		bn_add_dig(t, t, 1);
 		bn_div_dig(t, t, prv->t);
 		bn_read_bin(m, in, in_len);
+		/* The ciphertext must be in the range [0, n - 1]. */
+		if (bn_cmp(m, prv->n) != RLC_LT) {
+			RLC_THROW(ERR_NO_VALID);
+		}
 		bn_mxp(m, m, t, prv->n);
 		bn_mxp(t, prv->y, t, prv->n);
 
